@@ -33,6 +33,7 @@ clause → theorem
 * marker dispatch cannot misroute ................ `marker_is_beve's`, `regular_never_marker`, `regular_body_on_ref_route`
 * wrong element type rejected .................... `wrong_type_rejected`, `wrong_form_rejected`
 * wrong body format rejected ..................... `wrong_format_rejected`
+* builder sequences: the last setter wins ........ `last_setter_wins`
 * aligned request as a wire frame (with C01) ..... `aligned_frame_any_capacity`
 * the client entry points send that frame ........ `client_aligned_request_is_builder_frame`, `client_aligned_request_borrowable`, `client_bulk_request_is_regular`
 * the dependency's layout constants .............. `beve_layout_constants`
@@ -484,6 +485,24 @@ theorem aligned_frame_any_capacity {t : ElemTy} {xs : List Bytes} (v : Vec t t.w
 example : let m := alignedRequest 7 false 0 1 [0x2f, 1, 2, 3, 4] ⟨0, 3⟩ [[1, 2, 3, 4, 5, 6, 7, 8], [9, 9, 9, 9, 9, 9, 9, 9]]
     m.intoWireBytes 0 = m.toVec ∧ m.intoWireBytes 4096 = m.toVec ∧ m.toVec.length = 48 + 5 + 3 + 1 + 7 + 16 := by
   decide
+
+/-! ### builder sequences -/
+
+/-- The last body setter wins: whatever bodies (and body capacities) earlier setters left on the
+builder, the message is the one a fresh builder makes with the last setter alone — `body_bytes`, which
+does not touch the format, keeps the format of the setters before it. -/
+theorem last_setter_wins (id : Nat) (q : Bytes) (queryAfter : Bool) (ss : List Setter) (s : Setter) :
+    (buildSeq F id q queryAfter (ss ++ [s])).body = (buildSeq F id q queryAfter [s]).body ∧
+    ((∀ b, s ≠ .bytes b) → buildSeq F id q queryAfter (ss ++ [s]) = buildSeq F id q queryAfter [s]) := by
+  constructor
+  · simp only [buildSeq, List.foldl_append, List.foldl_cons, List.foldl_nil, Builder.build]
+    cases s <;> rfl
+  · intro h
+    simp only [buildSeq, List.foldl_append, List.foldl_cons, List.foldl_nil]
+    cases s <;> first | rfl | exact absurd rfl (h _)
+
+example : (buildSeq F 7 [0x2f] false [.typed ⟨0, 3⟩ [[1, 2, 3, 4, 5, 6, 7, 8], [9, 9, 9, 9, 9, 9, 9, 9]], .typed ⟨2, 0⟩ [[5]]]).body =
+    [0x14, 0x04, 5] := by decide
 
 /-! ### the client entry points -/
 
